@@ -107,3 +107,17 @@ JIT_EMIT_RCP = dict(JIT_EMIT, pre_rewrites=JIT_EMIT["pre_rewrites"] + [
     {"name": "IMUL_RCP branch condition specialised by asserted constant", "function": "JitCompilerX86_h_IMUL_RCP",
      "pattern": r"if \(!isZeroOrPowerOf2\(divisor\)\)", "repl": "if (RXV_RCP_COND(!isZeroOrPowerOf2(divisor)))"}],
     must_fire=dict(JIT_EMIT["must_fire"], **{"recipe rewrite: IMUL_RCP branch condition specialised by asserted constant": 1}))
+
+JIT_LAYOUT = dict(X86, main="src/jit_compiler_x86.cpp",
+    keep=["JitCompilerX86::generateProgram", "JitCompilerX86::generateProgramLight", "JitCompilerX86::generateProgramPrologue",
+          "JitCompilerX86::generateProgramEpilogue", "JitCompilerX86::emit*", "Program::getSize", "Program::op_call"],
+    drop_vars=["JitCompilerX86::engine", JIT_DROP_SIZES],
+    pre_rewrites=[{"name": "emit(array) -> emit(array, sizeof array)", "pattern": r"\bemit\((\w+)\);", "repl": r"emit(\1, sizeof(\1));"},
+                  {"name": "instructionOffsets.clear()", "pattern": r"instructionOffsets\.clear\(\);", "repl": "rxv_vec_clear(&instructionOffsets);"},
+                  {"name": "prefetch blob size", "pattern": r"\(\(uint8_t\*\)&randomx_prefetch_scratchpad_end\) - \(\(uint8_t\*\)&randomx_prefetch_scratchpad\)", "repl": "prefetchScratchpadSize"},
+                  {"name": "prefetch blob", "pattern": r"\(\(uint8_t\*\)&randomx_prefetch_scratchpad\)", "repl": "codePrefetchScratchpad"}],
+    must_fire={"recipe rewrite: prefetch blob size": 1, "recipe rewrite: instructionOffsets.clear()": 1},
+    # the harness memcpy stub checks destinations but does not model the copied bytes: sound only while the generator never
+    # reads the code buffer back
+    only_uses=[{"name": "code buffer is write-only in the generator", "token": r"self->code\b(?!Pos)",
+                "allowed": [r"memcpy\(self->code \+ self->codePos(?: - 48)?,", r"self->code\[self->codePos\] = "], "min": 8}])
